@@ -781,4 +781,207 @@ theorem ring_rrecv_roundtrip {α} (e : Nat) (he : 0 < e) (dflt : List α) (hdf :
 example : Spec.ringRrecv (full 1) [0] 1 [([1, 2], 2), ([], 0), ([3], 1)] [[9, 9, 9], [8], []] = [[3], [1, 2], []] := by
   decide
 
+/-! ## R4: the datatype construction code of the current sources (`Gen.TyProg.*`, symbolic execution by `tr_c07.py`)
+
+For **every** instantiation (`env`: the typemaps of the template arguments, the member offsets, `sizeof`, the counts) the
+handle that `getType()` returns denotes the model's typemap constructor — so the theorems above (`*_typemap`, `*_covers`,
+`resized_extents`, `pair_array_transfers`, `indexpair_transfers_global_and_attribute`) speak about what the code builds now. -/
+section TypeProg
+open TyProg
+
+/-- `MPITraits<FieldVector<K,n>>`: struct of one block `contiguous(n, MPITraits<K>)` at the displacement of `fvector[0]` -/
+theorem typeprog_fieldvector (env : Env) :
+    eval env Gen.TyProg.fieldVector = Types.fieldVector (env.off "[0]") (env.cnt (.tparam 2)) (env.param 1) := by
+  simp [Gen.TyProg.fieldVector, eval, Types.fieldVector, struct, ub]
+
+/-- `MPITraits<bigunsignedint<k>>`: `bigunsignedint<k>::n` digits of `std::uint16_t` at the displacement of `digit` -/
+theorem typeprog_bigunsigned (env : Env) :
+    eval env Gen.TyProg.bigUnsigned =
+      Types.bigUnsigned (env.off "digit") (env.cnt (.selfConst "n")) (env.named "std::uint16_t") := by
+  simp [Gen.TyProg.bigUnsigned, eval, Types.bigUnsigned, struct, ub]
+
+/-- `MPITraits<std::pair<T1,T2>>`: struct {first, second}, one element each, resized to `sizeof(pair)` -/
+theorem typeprog_pair (env : Env) :
+    eval env Gen.TyProg.pair =
+      Types.pair (env.off "first") (env.param 1) (env.off "second") (env.param 2) (env.cnt .sizeofSelf) := by
+  simp [Gen.TyProg.pair, eval, Types.pair, struct, ub]
+
+/-- `MPITraits<ParallelLocalIndex<T>>`: struct {attribute_ : one char}, resized to `sizeof` -/
+theorem typeprog_localindex (env : Env) :
+    eval env Gen.TyProg.localIndex = Types.localIndex (env.off "attribute_") (env.named "char") (env.cnt .sizeofSelf) := by
+  simp [Gen.TyProg.localIndex, eval, Types.localIndex, struct, ub]
+
+/-- `MPITraits<IndexPair<TG,ParallelLocalIndex<TA>>>`: struct {global_, local_}, resized to `sizeof` -/
+theorem typeprog_indexpair (env : Env) :
+    eval env Gen.TyProg.indexPair =
+      Types.indexPair (env.off "global_") (env.param 1) (env.off "local_") (env.named "ParallelLocalIndex<$2>")
+        (env.cnt .sizeofSelf) := by
+  simp [Gen.TyProg.indexPair, eval, Types.indexPair, struct, ub]
+
+/-- the byte-wise fallback `MPITraits<T>`: `sizeof(T)` bytes -/
+theorem typeprog_fallback (env : Env) :
+    eval env Gen.TyProg.fallback = contiguous (env.cnt .sizeofSelf) (env.named "MPI_BYTE") := by
+  simp [Gen.TyProg.fallback, eval]
+
+/-- the cell-level instantiations the driver runs (`tyMap`) are the generated construction code evaluated at the cell
+layout of the harness types (`TyProg.cellEnv`) -/
+theorem tymap_from_source :
+    tyMap "fv3" = some (eval (cellEnv (basic 1) (basic 1) (basic 1) 3 3 [("[0]", 0)]) Gen.TyProg.fieldVector) ∧
+    tyMap "fv2" = some (eval (cellEnv (basic 1) (basic 1) (basic 1) 2 2 [("[0]", 0)]) Gen.TyProg.fieldVector) ∧
+    tyMap "big96" = some (eval (cellEnv (basic 1) (basic 1) (basic 1) 1 1 [("digit", 0)]) Gen.TyProg.bigUnsigned) ∧
+    tyMap "pair" = some (eval (cellEnv (basic 1) (basic 1) (basic 1) 0 2 [("first", 0), ("second", 1)]) Gen.TyProg.pair) ∧
+    tyMap "pod" = some (eval (cellEnv (basic 1) (basic 1) (basic 1) 0 3 []) Gen.TyProg.fallback) ∧
+    tyMap "pli" = some (eval (cellEnv (basic 1) (basic 1) (basic 1) 0 4 [("attribute_", 1)]) Gen.TyProg.localIndex) ∧
+    tyMap "ip" = some (eval (cellEnv (basic 1) (basic 1)
+        (eval (cellEnv (basic 1) (basic 1) (basic 1) 0 4 [("attribute_", 1)]) Gen.TyProg.localIndex) 0 5
+        [("global_", 0), ("local_", 1)]) Gen.TyProg.indexPair) := by
+  decide
+
+/-- **source_extents.**  The three struct datatypes of the current sources have extent `sizeof`, whatever the members. -/
+theorem source_extents (env : Env) :
+    (eval env Gen.TyProg.pair).extent = env.cnt .sizeofSelf ∧ (eval env Gen.TyProg.localIndex).extent = env.cnt .sizeofSelf ∧
+      (eval env Gen.TyProg.indexPair).extent = env.cnt .sizeofSelf := by
+  rw [typeprog_pair, typeprog_localindex, typeprog_indexpair]; exact ⟨rfl, rfl, rfl⟩
+
+/-- **source_localindex_transfers_attribute_only.**  Moving one `ParallelLocalIndex<T>` with the datatype the current
+`getType()` builds overwrites the cell of `attribute_` and nothing else (not `localIndex_`, `public_`, `state_`). -/
+theorem source_localindex_transfers_attribute_only {α} (env : Env) (hc : env.named "char" = basic 1)
+    (src dst : List α) (i : Nat) :
+    (transfer (eval env Gen.TyProg.localIndex) src 0 dst 0)[i]? =
+      if i = env.off "attribute_" then ovw src[i]? dst[i]? else dst[i]? := by
+  rw [typeprog_localindex, hc, typemap_transfers_exactly, localindex_typemap]
+  have : (covers ⟨[(env.off "attribute_", 1)], env.cnt .sizeofSelf⟩ i = true) ↔ i = env.off "attribute_" := by
+    simp [covers]; omega
+  simp only [Nat.zero_le, true_and, Nat.sub_zero, Nat.zero_add, this]
+
+/-- **source_indexpair_transfers_global_and_attribute.**  With the datatypes the current sources build — the one of
+`IndexPair<TG,ParallelLocalIndex<TA>>` (`envP`) using the one of `ParallelLocalIndex<TA>` (`envL`) for `local_`, `TG` a
+number of `szG` cells — moving an index pair overwrites exactly the cells of the global index and the attribute. -/
+theorem source_indexpair_transfers_global_and_attribute {α} (envP envL : Env) (szG : Nat)
+    (hG : envP.param 1 = basic szG) (hc : envL.named "char" = basic 1)
+    (hL : envP.named "ParallelLocalIndex<$2>" = eval envL Gen.TyProg.localIndex) (src dst : List α) (i : Nat) :
+    (transfer (eval envP Gen.TyProg.indexPair) src 0 dst 0)[i]? =
+      if (envP.off "global_" ≤ i ∧ i < envP.off "global_" + szG) ∨ i = envP.off "local_" + envL.off "attribute_"
+      then ovw src[i]? dst[i]? else dst[i]? := by
+  rw [typeprog_indexpair, hL, typeprog_localindex, hG, hc]
+  exact indexpair_transfers_global_and_attribute _ _ _ _ _ _ src dst i
+
+/-- **source_pair_array_transfers.**  `count` pairs moved with the datatype the current sources build stride by
+`sizeof(pair)` and overwrite exactly what `first` and `second` communicate. -/
+theorem source_pair_array_transfers {α} (env : Env)
+    (h1 : ∀ b ∈ (env.param 1).blocks, env.off "first" + b.1 + b.2 ≤ env.cnt .sizeofSelf)
+    (h2 : ∀ b ∈ (env.param 2).blocks, env.off "second" + b.1 + b.2 ≤ env.cnt .sizeofSelf)
+    (hpos : 0 < env.cnt .sizeofSelf) (n : Nat) (src dst : List α) (i : Nat) :
+    (transferN (eval env Gen.TyProg.pair) n src 0 dst 0)[i]? =
+      if i / env.cnt .sizeofSelf < n ∧
+          ((env.off "first" ≤ i % env.cnt .sizeofSelf ∧ (env.param 1).covers (i % env.cnt .sizeofSelf - env.off "first") = true) ∨
+           (env.off "second" ≤ i % env.cnt .sizeofSelf ∧ (env.param 2).covers (i % env.cnt .sizeofSelf - env.off "second") = true))
+      then ovw src[i]? dst[i]? else dst[i]? := by
+  rw [typeprog_pair]; exact pair_array_transfers _ _ _ _ _ h1 h2 hpos n src dst i
+
+/-- **source_fieldvector_covers / source_bigunsigned_covers.**  All `n` components / digits, nothing else. -/
+theorem source_fieldvector_covers (env : Env) (w : Nat) (hK : env.param 1 = basic w) (j : Nat) :
+    (eval env Gen.TyProg.fieldVector).covers j = true ↔
+      env.off "[0]" ≤ j ∧ j < env.off "[0]" + env.cnt (.tparam 2) * w := by
+  rw [typeprog_fieldvector, hK]; exact fieldvector_typemap _ _ _ j
+
+theorem source_bigunsigned_covers (env : Env) (w : Nat) (hD : env.named "std::uint16_t" = basic w) (j : Nat) :
+    (eval env Gen.TyProg.bigUnsigned).covers j = true ↔
+      env.off "digit" ≤ j ∧ j < env.off "digit" + env.cnt (.selfConst "n") * w := by
+  rw [typeprog_bigunsigned, hD]; exact bigunsigned_typemap _ _ _ j
+
+-- non-vacuity: the IndexPair of the harness (global index in cell 0, local_ from cell 1 with the attribute in its second
+-- cell, 5 cells) — hypotheses hold, and the transfer moves cells 0 and 2 only
+example : let envL := cellEnv (basic 1) (basic 1) (basic 1) 0 4 [("attribute_", 1)]
+    let envP := cellEnv (basic 1) (basic 1) (eval envL Gen.TyProg.localIndex) 0 5 [("global_", 0), ("local_", 1)]
+    envP.param 1 = basic 1 ∧ envL.named "char" = basic 1 ∧
+      envP.named "ParallelLocalIndex<$2>" = eval envL Gen.TyProg.localIndex ∧
+      transfer (eval envP Gen.TyProg.indexPair) [10, 11, 12, 13, 14] 0 [0, 1, 2, 3, 4] 0 = [10, 1, 12, 3, 4] := by
+  decide
+-- pair<long long, char> of 3 cells (one padding cell): hypotheses of `source_pair_array_transfers` hold; two pairs
+example : let env := cellEnv (contiguous 1 (basic 1)) (basic 1) (basic 1) 0 3 [("first", 0), ("second", 1)]
+    (∀ b ∈ (env.param 1).blocks, env.off "first" + b.1 + b.2 ≤ env.cnt .sizeofSelf) ∧
+    (∀ b ∈ (env.param 2).blocks, env.off "second" + b.1 + b.2 ≤ env.cnt .sizeofSelf) ∧ 0 < env.cnt .sizeofSelf ∧
+    transferN (eval env Gen.TyProg.pair) 2 [1, 2, 0, 3, 4, 0] 0 [9, 9, 9, 9, 9, 9] 0 = [1, 2, 9, 3, 4, 9] := by
+  decide
+-- what the seeded change C07_w4m3 builds (three chars from `attribute_` on) is *not* the model's datatype: it also
+-- overwrites the two cells after the attribute
+example : transfer (eval (cellEnv (basic 1) (basic 1) (basic 1) 0 4 [("attribute_", 1)])
+    (.resized (.scons "attribute_" 3 (.named "char") .snil) .sizeofSelf)) [10, 11, 12, 13] 0 [0, 1, 2, 3] 0 = [0, 11, 12, 13] := by
+  decide
+example : eval (cellEnv (basic 1) (basic 1) (basic 1) 3 3 [("[0]", 0)]) Gen.TyProg.fieldVector = ⟨[(0, 1), (1, 1), (2, 1)], 3⟩ := by
+  decide
+end TypeProg
+
+/-! ## R4: the wrapper layer `Communication<MPI_Comm>` of the current sources (`Gen.wrapperTable`, symbolic execution of
+every member function body by `tr_c07.py`) -/
+section Wrappers
+open Wrap
+
+/-- **wrapper_table_sound.**  Every member function of `Communication<MPI_Comm>` issues the MPI call the specification
+side (`Wrap.expected`) lists — function, buffers, counts, datatypes, root, operation, the delegations of
+`sum/prod/min/max` and of the in-place `allreduce`, the probe–count–resize–receive sequence of `rrecv`, the refusal of an
+empty `irecv` — and every call is well formed: it is the MPI function the member stands for, the arguments fit the
+signature the MPI standard gives that function, every buffer is described by the datatype of its own elements and every
+reduction uses the `MPI_Op` instantiated for the element type its datatype describes (the statement the defect repaired
+in /repo 708cce0 violated). -/
+theorem wrapper_table_sound :
+    Gen.wrapperTable = Wrap.expected ∧ (∀ r ∈ Gen.wrapperTable, wellFormed r = true) := by
+  refine ⟨rfl, ?_⟩
+  decide
+
+/-- **igather_counts.**  `igather`: every rank sends its whole object; the root receives that many elements per rank
+(the receive count is significant at the root only). -/
+theorem igather_counts (env : CEnv) :
+    ∃ s r, countArg Gen.wrapperTable "igather_3" 0 = some s ∧ countArg Gen.wrapperTable "igather_3" 1 = some r ∧
+      s.eval env = env.sizeOf 1 ∧ (env.me = env.root → r.eval env = env.sizeOf 1) := by
+  refine ⟨_, _, rfl, rfl, ?_, ?_⟩
+  · simp [CExpr.eval, prodOf, Atom.eval]
+  · intro h; simp [CExpr.eval, prodOf, Atom.eval, h]
+
+/-- **iscatter_counts.**  `iscatter`: the root hands out `size/procs` elements per rank — all of its object when the
+size is a multiple of the process count —, every rank receives its whole receive object. -/
+theorem iscatter_counts (env : CEnv) :
+    ∃ s r, countArg Gen.wrapperTable "iscatter_3" 0 = some s ∧ countArg Gen.wrapperTable "iscatter_3" 1 = some r ∧
+      (env.me = env.root → s.eval env = env.sizeOf 1 / env.procs) ∧
+      (env.me = env.root → env.procs ∣ env.sizeOf 1 → s.eval env * env.procs = env.sizeOf 1) ∧
+      r.eval env = env.sizeOf 2 := by
+  refine ⟨_, _, rfl, rfl, ?_, ?_, ?_⟩
+  · intro h; simp [CExpr.eval, prodOf, Atom.eval, h]
+  · intro h hd; simp [CExpr.eval, prodOf, Atom.eval, h]; exact Nat.div_mul_cancel hd
+  · simp [CExpr.eval, prodOf, Atom.eval]
+
+/-- **iallgather_counts.**  `iallgather`: send count = receive count per rank = the size of the contribution. -/
+theorem iallgather_counts (env : CEnv) :
+    ∃ s r, countArg Gen.wrapperTable "iallgather_2" 0 = some s ∧ countArg Gen.wrapperTable "iallgather_2" 1 = some r ∧
+      s.eval env = env.sizeOf 1 ∧ r.eval env = env.sizeOf 1 := by
+  refine ⟨_, _, rfl, rfl, ?_, ?_⟩ <;> simp [CExpr.eval, prodOf, Atom.eval]
+
+/-- **pointer_collective_counts.**  `gather / scatter / allgather` (pointer forms): send count = receive count = the
+`len` parameter, on every rank. -/
+theorem pointer_collective_counts (env : CEnv) :
+    (∃ s r, countArg Gen.wrapperTable "gather_4" 0 = some s ∧ countArg Gen.wrapperTable "gather_4" 1 = some r ∧
+      s.eval env = env.par 3 ∧ r.eval env = env.par 3) ∧
+    (∃ s r, countArg Gen.wrapperTable "scatter_4" 0 = some s ∧ countArg Gen.wrapperTable "scatter_4" 1 = some r ∧
+      s.eval env = env.par 3 ∧ r.eval env = env.par 3) ∧
+    (∃ s r, countArg Gen.wrapperTable "allgather_3" 0 = some s ∧ countArg Gen.wrapperTable "allgather_3" 1 = some r ∧
+      s.eval env = env.par 2 ∧ r.eval env = env.par 2) := by
+  refine ⟨⟨_, _, rfl, rfl, ?_, ?_⟩, ⟨_, _, rfl, rfl, ?_, ?_⟩, ⟨_, _, rfl, rfl, ?_, ?_⟩⟩ <;>
+    simp [CExpr.eval, prodOf, Atom.eval]
+
+-- non-vacuity: 3 ranks, root 1, an object of 6 elements at the root: iscatter hands out 2 per rank
+example : (⟨[.isRoot, .sizeOf 1], [.procs]⟩ : CExpr).eval ⟨fun _ => 0, fun _ => 6, 1, 1, 3⟩ = 2 ∧
+    (⟨[.isRoot, .sizeOf 1], [.procs]⟩ : CExpr).eval ⟨fun _ => 0, fun _ => 6, 0, 1, 3⟩ = 0 := by decide
+-- the seeded change C07_m3 (`igather` root count `out.size()/procs`) is not the expected call
+example : (⟨"igather_3", .call "MPI_Igather" [.buf 1, .cnt ⟨[.sizeOf 1], []⟩, .tyOf 1, .buf 2, .cnt ⟨[.sizeOf 2], [.procs]⟩,
+    .tyOf 2, .root, .comm, .req], [], [], .none⟩ : Row) ∉ Wrap.expected := by decide
+-- the defect repaired in 708cce0 (op instantiated for the container type `$2` while the datatype is the one of the entries)
+-- is not well formed
+example : wellFormed ⟨"allreduce_1", .call "MPI_Allreduce" [.inPlace, .buf 1, .cnt ⟨[.sizeOf 1], []⟩, .tyOf 1,
+    .op (.named "$2") "$1", .comm], [], [], .none⟩ = false := by decide
+-- a gather whose receive datatype is not the one of the receive buffer's elements is not well formed
+example : wellFormed ⟨"allgather_3", .call "MPI_Allgather" [.buf 1, .cnt ⟨[.par 2], []⟩, .tyT "$1", .buf 3, .cnt ⟨[.par 2], []⟩,
+    .tyT "$1", .comm], [(1, "$1"), (3, "$2")], [], .none⟩ = false := by decide
+end Wrappers
+
 end DV.C07
